@@ -127,6 +127,8 @@ pub struct World {
     pub yield_faults: Vec<String>,
     pub respond_results: Vec<(usize, usize, bool)>,
     pub sndbuf_shrunk: bool,
+    /// length of a pad header the next composed request gets (used to hit exact total sizes)
+    pub next_pad: usize,
 }
 
 pub fn fd_set() -> BTreeSet<RawFd> {
@@ -282,6 +284,7 @@ impl World {
             yield_faults: vec![],
             respond_results: vec![],
             sndbuf_shrunk: false,
+            next_pad: 0,
         })
     }
 
@@ -392,6 +395,12 @@ impl World {
         for k in 0..spec.extra_headers {
             v.extend_from_slice(format!("X-H{}: v{}\r\n", k, j).as_bytes());
         }
+        let pad = std::mem::take(&mut self.next_pad);
+        if pad > 0 {
+            v.extend_from_slice(b"X-Pad: ");
+            v.extend(std::iter::repeat(b'p').take(pad));
+            v.extend_from_slice(b"\r\n");
+        }
         if spec.expect {
             v.extend_from_slice(b"Expect: 100-continue\r\n");
         }
@@ -416,6 +425,21 @@ impl World {
             self.clients[c].dirty = true;
         }
         v
+    }
+
+    /// send one request whose total length is exactly `total` bytes (false if that is not possible)
+    pub fn send_request_sized(&mut self, c: usize, spec: &ReqSpec, total: usize) -> bool {
+        if self.clients[c].state != CState::Connected || self.clients[c].shut_wr {
+            return false;
+        }
+        let base = self.compose(c, spec).len();
+        self.clients[c].composed.pop();
+        if total < base + 10 || total - base - 9 > 1000 {
+            return false;
+        }
+        self.next_pad = total - base - 9;
+        self.send_request(c, spec, &[]);
+        true
     }
 
     /// stage a request in pieces; the first piece is sent now
